@@ -23,18 +23,19 @@ var durationType = reflect.TypeOf(time.Duration(0))
 // non-empty, otherwise it is also UTC but the caller's interpretation may
 // treat it as naive.
 func timestampToTime(v int64, ts *arrow.TimestampType) time.Time {
-	var d time.Duration
+	// Go through time.Unix* rather than a time.Duration: a Duration holds
+	// only about +-292 years, so multiplying the wire value into one wraps
+	// for instants outside 1678..2262 that the Arrow type represents fine.
 	switch ts.Unit {
 	case arrow.Second:
-		d = time.Duration(v) * time.Second
+		return time.Unix(v, 0).UTC()
 	case arrow.Millisecond:
-		d = time.Duration(v) * time.Millisecond
+		return time.UnixMilli(v).UTC()
 	case arrow.Microsecond:
-		d = time.Duration(v) * time.Microsecond
-	case arrow.Nanosecond:
-		d = time.Duration(v)
+		return time.UnixMicro(v).UTC()
+	default: // arrow.Nanosecond
+		return time.Unix(0, v).UTC()
 	}
-	return time.Unix(0, 0).UTC().Add(d)
 }
 
 func setTimeField(field reflect.Value, fieldType reflect.Type, isPtr bool, val time.Time) {
@@ -449,9 +450,7 @@ func setMapField(field reflect.Value, fieldType reflect.Type, isPtr bool, mapArr
 	items := mapArr.Items()
 	length := int(end - start)
 
-	if isPtr {
-		fieldType = fieldType.Elem()
-	}
+	// fieldType is already dereferenced by the caller (setFieldFromArrow).
 
 	m := reflect.MakeMapWithSize(fieldType, length)
 	for j := 0; j < length; j++ {
@@ -460,8 +459,12 @@ func setMapField(field reflect.Value, fieldType reflect.Type, isPtr bool, mapArr
 		if err := setFieldFromArrow(k, fieldType.Key(), keys, int(start)+j, tagInfo{}); err != nil {
 			return fmt.Errorf("map key [%d]: %w", j, err)
 		}
-		if err := setFieldFromArrow(v, fieldType.Elem(), items, int(start)+j, tagInfo{}); err != nil {
-			return fmt.Errorf("map value [%d]: %w", j, err)
+		// A null item leaves v at its zero value (nil for a pointer value
+		// type), the same way setListField treats a null element.
+		if !items.IsNull(int(start) + j) {
+			if err := setFieldFromArrow(v, fieldType.Elem(), items, int(start)+j, tagInfo{}); err != nil {
+				return fmt.Errorf("map value [%d]: %w", j, err)
+			}
 		}
 		m.SetMapIndex(k, v)
 	}
